@@ -108,3 +108,13 @@ Definition clone_with_text (t : tok) (text : list byte) : tok := mkTok (t_kind t
 
 (* SyntaxToken::clone_with_leading_trivia: same kind, same text, new leading trivia *)
 Definition clone_with_leading_trivia (t : tok) (tr : list tpiece) : tok := mkTok (t_kind t) (t_text t) tr.
+
+(* Token::set_leading_trivia (the only public mutator of a Token): kind and text stay, the trivia are replaced.
+   Token::byte_len is `leading_trivia.byte_len() + text_len()`, computed from the pieces on every call: in the
+   model a token has no cached length at all (`tok_len` is a function), so the length follows the new trivia.
+   The generated builders' `with_<token>_trivia` setters and the builder domain types' `with_trivia` are exactly
+   this call on an already constructed token. *)
+Definition set_leading_trivia (t : tok) (tr : list tpiece) : tok := mkTok (t_kind t) (t_text t) tr.
+
+(* SyntaxToken::clone_with_token: the replacement red token carries the given token as it is *)
+Definition clone_with_token (_old : tok) (t : tok) : tok := t.
